@@ -437,7 +437,7 @@ def selftest():
             assert key not in names, 'duplicate harness %s' % (key,)
             names.add(key)
             src = open(m.path).read()
-            assert re.search(r'(fn %s\s*\(|\b%s =>)' % (re.escape(h.name), re.escape(h.name)), src), 'harness fn %s missing in %s' % (h.name, m.path)
+            assert re.search(r'(fn %s\s*\(|\b%s =>|!\(%s,)' % (re.escape(h.name), re.escape(h.name), re.escape(h.name)), src), 'harness fn %s missing in %s' % (h.name, m.path)
         assert os.path.isfile(os.path.join(vk.REPO, m.attach)), 'attach point missing: %s' % m.attach
     say('selftest: %d modules, %d harnesses ok' % (len(mods), len(names)))
     return 0
